@@ -120,7 +120,11 @@ class ChildCrashed(Exception):
     pass
 
 
-def run_child(fn: Callable[..., Any], *args: Any, wall_s: float | None = None, mem_bytes: int | None = None) -> Any:
+class ChildCpuExceeded(Exception):
+    """The child used up its CPU-time limit (RLIMIT_CPU): a loop the step clock cannot see (C code)."""
+
+
+def run_child(fn: Callable[..., Any], *args: Any, wall_s: float | None = None, mem_bytes: int | None = None, cpu_s: int | None = None) -> Any:
     """Run fn(*args) in a forked child and return its (pickled) result.
 
     The caller (a worker) never runs repository code itself, so the child
@@ -148,6 +152,10 @@ def run_child(fn: Callable[..., Any], *args: Any, wall_s: float | None = None, m
                 import resource
 
                 resource.setrlimit(resource.RLIMIT_AS, (mem_bytes, mem_bytes))
+            if cpu_s:
+                import resource
+
+                resource.setrlimit(resource.RLIMIT_CPU, (cpu_s, cpu_s + 2))
             try:
                 res = ("ok", fn(*args))
             except BaseException:  # harness-level failure inside the child
@@ -193,6 +201,8 @@ def run_child(fn: Callable[..., Any], *args: Any, wall_s: float | None = None, m
         raise ChildTimeout(f"child exceeded {wall}s wall clock (harness safety net)")
     data = b"".join(chunks)
     if not data:
+        if os.WIFSIGNALED(status) and os.WTERMSIG(status) in (signal.SIGXCPU, signal.SIGKILL) and cpu_s:
+            raise ChildCpuExceeded(f"child used more than {cpu_s}s of CPU time")
         raise ChildCrashed(f"child died without a result (wait status {status})")
     kind, val = pickle.loads(data)
     if kind == "harness_error":
